@@ -321,7 +321,10 @@ def _round(I, a, k):
 def _sum(I, a, k):
     if not _anysym(a):
         return NotImplemented
-    items = I.to_list(a[0])
+    x0 = a[0].arr if getattr(a[0], "_pyvc_series", False) else a[0]
+    if isinstance(x0, SArr) and x0.ndim == 1 and not isinstance(x0.shape[0], int) and len(a) == 1:
+        return _npsum(I, [x0], {})          # sum over a 1-d array of symbolic length: the same opaque reduction as np.sum
+    items = I.to_list(x0)
     r = a[1] if len(a) > 1 else 0
     for x in items:
         r = ops.binop("Add", r, x)
@@ -1826,3 +1829,14 @@ def _npdiag(I, a, k):
     xs = x.snapshot()
     zero = z3.RealVal(0) if x.dtype.kind == "f" else z3.IntVal(0)
     return SArr(x.dtype, (x.shape[0], x.shape[0]), lambda idx: z3.If(A.T(idx[0]) == A.T(idx[1]), xs((idx[0],)), zero))
+
+
+@model(np.isin)
+def _isin(I, a, k):
+    """A-NP-SPEC np.isin(x, values): element-wise membership"""
+    if not _anysym(a, k):
+        return NotImplemented
+    if k.get("invert") or k.get("assume_unique"):
+        raise Unsupported("np.isin with invert / assume_unique")
+    from .pdmodel import membership
+    return membership(a[0], a[1])
